@@ -38,7 +38,8 @@ EXPLANATION = (
     " (R13) third-order correction of the exponential and power cone: higher_correction is replayed with the state of eta, the scratch matrix and every local tracked statement by statement; eta is a bilinear form in (u, v) whose 27 coefficients equal 1/2 d^3 f*/dz_i dz_j dz_k exactly."
     " (R14) the sign tests that decide membership of the power and exponential cone evaluate the defining expressions of K and K* (the dual power cone test is the same power product as the dual barrier)."
     " (R15) primal-dual scaling: the stored Hs is s s'/<s,z> + ds ds'/<ds,dz> + t a a' with ds = s + mu st, dz = z + mu zt, a = normalised z x zt, and - given the Euler identities of R4 - <ds,z> = <s,dz> = <a,z> = <a,dz> = 0, so Hs z = s and Hs zt = st identically (positive definiteness not decided)."
-    ' (R16) the constants of unit_initialization (exp, pow; pow at three generic exponents) satisfy s = -grad f*(z) for the gradient polynomial of R11 (evaluated from the source text, tolerance 1e-6: the literals of the exponential cone are accurate to 4e-9 only); (R17) the 3x3 Cholesky used by higher_correction rejects a pivot iff it is <= 0 exactly, and the correction is zeroed iff it failed.')
+    ' (R16) the constants of unit_initialization (exp, pow; pow at three generic exponents) satisfy s = -grad f*(z) for the gradient polynomial of R11 (evaluated from the source text, tolerance 1e-6: the literals of the exponential cone are accurate to 4e-9 only); (R17) the 3x3 Cholesky used by higher_correction rejects a pivot iff it is <= 0 exactly, and the correction is zeroed iff it failed.'
+    " (R18) generalised power cone membership tests: log-sum summand 2 a_i log(s_i) (primal) / 2 a_i log(z_i/a_i) (dual), compared with the squared norm of the tail; (R19) exponential cone: barrier_primal(s) = -3 - barrier_dual(-gradient_primal(s)) and grad f*(-gradient_primal(s)) = -s at four interior points (source expressions evaluated numerically, Wright omega solved by Newton's iteration).")
 ASSUMPTIONS = ['rustc MIR construction and trait resolution are correct',
                'R4: identities over the reals; log(a b) = log a + log b and omega + log omega = x for omega = wright_omega(x)']
 
@@ -1603,6 +1604,20 @@ def _num_text(t, env, depth=0):
         return math.sqrt(vals[0])
     if nm in ('as_T', 'clone'):
         return vals[0]
+    if nm in ('logsafe', 'ln'):
+        if vals[0] <= 0:
+            raise _NoDerivative('log of a non-positive number')
+        return math.log(vals[0])
+    if nm == 'exp':
+        return math.exp(vals[0])
+    if nm == '_wright_omega':
+        # omega + log(omega) = x, solved by Newton's iteration (the function itself is not executed)
+        x, w = vals[0], 1.0
+        for _ in range(200):
+            w = w - (w + math.log(w) - x) / (1.0 + 1.0 / w)
+            if w <= 0:
+                w = 1e-12
+        return w
     raise _NoDerivative('cannot evaluate %s' % t[:60])
 
 
@@ -1741,6 +1756,99 @@ def cholesky_scale_free(rep, F, tag):
     R.guard(body)
 
 
+def genpow_membership(rep, F, tag, rid='C14.R18'):
+    """Generalised power cone, membership tests of the line search: s in K iff s_i > 0 and prod s_i^(2 a_i) > |w|^2; z in K* iff z_i > 0 and
+    prod (z_i / a_i)^(2 a_i) > |w|^2.  The summand of the log-sum is compared, as a polynomial over a log atom, with 2 a log(s) resp. 2 a log(z / a): the
+    normalisation by a_i belongs to the dual test only."""
+    R = rep.rule(rid, 'generalised power cone membership: log-sum summand 2 a_i log(s_i) (primal) and 2 a_i log(z_i / a_i) (dual); compared with the squared norm of the tail')
+
+    def body():
+        from engine.linform import RatF, P_atom, P_const
+        for nm, arg_want in (('is_primal_feasible', 'arg3.1'), ('is_dual_feasible', 'div(arg3.1, arg3.0)')):
+            f = F.one(name=nm, adt='GenPowerCone')
+            cls = [canon(g.sym_local(0)) for g in F.closures_of.get(f.key, [])]
+            summ = [c for c in cls if 'logsafe(' in c or 'ln(' in c]
+            if not R.check(len(summ) == 1, 'summand|%s%s' % (nm, tag), '%s has %d log-sum closures' % (nm, len(summ)), f.loc()):
+                continue
+            t = summ[0]
+            logs = _re.findall(r'(?:logsafe|ln)\(((?:[^()]|\([^()]*\))*)\)', t)
+            ok_arg = len(logs) == 1 and logs[0] == arg_want
+            # replace the log call by an atom and compare the rest as a polynomial: acc + 2 a L
+            ok_poly = False
+            if len(logs) == 1:
+                tt = _re.sub(r'(?:logsafe|ln)\((?:[^()]|\([^()]*\))*\)', 'LOGATOM', t)
+                try:
+                    A = lambda n_: RatF(P_atom(n_))
+                    got = _txt_eval(tt, {'arg2': A('acc'), 'arg3.0': A('a'), 'LOGATOM': A('L'), 'arg1._ref__two': RatF(P_const(2)), 'arg1.two': RatF(P_const(2))}, {})
+                    ok_poly = (got + (A('acc') + RatF(P_const(2)) * A('a') * A('L')) * RatF(P_const(-1))).is_zero()
+                except _NoDerivative:
+                    ok_poly = False
+            R.check(ok_arg and ok_poly, 'definition|%s%s' % (nm, tag),
+                    'GenPowerCone::%s sums %s: expected acc + 2 a_i log(%s) - %s' % (nm, t[:120], 's_i' if nm == 'is_primal_feasible' else 'z_i / a_i',
+                                                                                     'the division by a_i belongs to the dual cone only' if nm == 'is_primal_feasible' else 'the dual cone is normalised by a_i'), f.loc())
+            keys = set()
+            for val, ret, ev, tr in Walker(f, cut_loops=True).leaves():
+                keys |= {k.replace('withoverflow', '') for k in val if k.startswith('lt(zero(), sub(exp(')}
+            R.check(len(keys) == 1 and 'sumsq(index(arg2, RangeFrom::RangeFrom(dim1(self))))' in list(keys)[0], 'tail|%s%s' % (nm, tag), '%s compares with %s' % (nm, [k[-80:] for k in keys]), f.loc())
+
+    R.guard(body)
+
+
+def exp_primal_barrier_conjugate(rep, F, E, tag):
+    """"the barrier oracles are one conjugate pair": the exponential cone's primal barrier, evaluated by the dual-scaling line search, must be the Fenchel conjugate
+    of the dual barrier, f(s) = -3 - f*(-g(s)) with g = gradient_primal, and -g(s) must be the dual point whose gradient is -s.  The three source expressions
+    (with the Wright omega function solved numerically) are evaluated at four interior points; a swapped log weight changes f by log(s2/s3)."""
+    R = rep.rule('C14.R19', 'exponential cone: barrier_primal(s) = -3 - barrier_dual(-gradient_primal(s)) and grad f*(-gradient_primal(s)) = -s at sample interior points')
+
+    def body():
+        K = 'ExponentialCone'
+        fb, fg, fd = F.one(name='barrier_primal', adt=K), F.one(name='gradient_primal', adt=K), F.one(name='barrier_dual', adt=K)
+        lb = [l for l in Walker(fb, local_stores=True).leaves() if l[1][0] != 'diverge']
+        lg = [l for l in Walker(fg, local_stores=True).leaves() if l[1][0] != 'diverge']
+        ld = [l for l in Walker(fd, local_stores=True).leaves() if l[1][0] != 'diverge']
+        if not R.check(len(lb) == 1 and len(lg) == 1 and len(ld) == 1 and lb[0][1][0] == 's' and ld[0][1][0] == 's', 'straight-line' + tag,
+                       'barrier_primal / gradient_primal / barrier_dual are not straight-line code', fb.loc()):
+            return
+        tb, td = str(lb[0][1][1]), str(ld[0][1][1])
+        gst = [(str(e[1]), str(e[2])) for e in lg[0][2] if e[0] == 'store' and _re.fullmatch(r'var:\w+\[\d_usize\]', str(e[1]))]
+        # gradient polynomial of the dual barrier (R11 ties it to barrier_dual)
+        fgr = F.one(name='update_dual_grad_H', adt=K)
+        reg, holder = {}, {'defs': {}}
+        Ig = LFSplit(F, E, fgr, _diff_atoms('z', holder), reg)
+        holder['I'] = Ig
+        lgr = Ig.run({})
+        gpoly = [lgr[0][2].get('self.grad[%d_usize]' % i) for i in range(3)] if len(lgr) == 1 else [None] * 3
+        n = 0
+        for s_ in ((-1.0, 1.0, 2.0), (0.3, 0.7, 3.0), (-2.0, 0.5, 0.9), (1.0, 2.0, 9.0)):
+            env = {'arg2[%d_usize]' % i: s_[i] for i in range(3)}
+            try:
+                Fp = _num_text(tb, env)
+                genv = dict(env)
+                g = [None] * 3
+                for t_, v_ in gst:
+                    i = int(_re.search(r'\[(\d)_usize\]', t_).group(1))
+                    g[i] = _num_text(v_, genv)
+                    genv[t_] = g[i]
+                if any(x is None for x in g):
+                    raise _NoDerivative('gradient_primal components')
+                z = [-x for x in g]
+                Fd = _num_text(td, {'arg2[%d_usize]' % i: z[i] for i in range(3)})
+                gz = [_num_poly(gpoly[i][1], {'z0': z[0], 'z1': z[1], 'z2': z[2]}, holder['defs'], reg) for i in range(3)] if all(x is not None and x[0] == 'S' for x in gpoly) else None
+            except (_NoDerivative, ValueError, ZeroDivisionError, OverflowError) as ex:
+                R.bad('evaluable' + tag, 'the barrier pair could not be evaluated at s = %s (%r)' % (s_, ex), fb.loc())
+                return
+            n += 1
+            R.check(abs(Fp - (-3.0 - Fd)) <= 1e-8 * max(1.0, abs(Fp)), 'conjugate|%s%s' % (s_, tag),
+                    'at s = %s barrier_primal gives %.10g but -3 - barrier_dual(-gradient_primal(s)) = %.10g: the primal barrier is not the conjugate of the dual barrier whose '
+                    'gradient and Hessian drive the scaling' % (s_, Fp, -3.0 - Fd), fb.loc())
+            if gz is not None:
+                R.check(all(abs(gz[i] + s_[i]) <= 1e-7 * max(1.0, abs(s_[i])) for i in range(3)), 'gradient-map|%s%s' % (s_, tag),
+                        'at s = %s: grad f*(-gradient_primal(s)) = %s, expected -s' % (s_, ['%.8g' % x for x in gz]), fg.loc())
+        R.check(n >= 4, 'points' + tag, 'only %d sample points evaluated' % n)
+
+    R.guard(body)
+
+
 def run(ctx, rep, tier):
     for cfg in (CONFIGS_THOROUGH if tier == 'thorough' else CONFIGS):
         F = ctx.facts(cfg)
@@ -1760,6 +1868,8 @@ def run(ctx, rep, tier):
         newton_derivative(rep, F, E, tag)
         membership_definitions(rep, F, E, tag)
         central_start(rep, F, E, tag)
+        genpow_membership(rep, F, tag)
+        exp_primal_barrier_conjugate(rep, F, E, tag)
         cholesky_scale_free(rep, F, tag)
         if cfg == 'default':
             primal_dual_secant(rep, F, E, tag)
